@@ -189,7 +189,11 @@ class SMUserList(UserList, ABC):
 
         elif isinstance(arg, (list, tuple)):
             # it's a list of things
-            if isinstance(arg[0], np.ndarray):
+            if len(arg) == 0:
+                # a list of nothing, an instance with no values
+                self.data = []
+
+            elif isinstance(arg[0], np.ndarray):
                 # possibly a list of numpy arrays
                 self.data = [self._import(x, check=check) for x in arg]
                 if any(x is None for x in self.data):
